@@ -37,9 +37,11 @@ func (q *persistentQueue[T]) Add(data T, configs ...JobConfigFunc) bool {
 	}
 
 	if ok := q.internalQueue.Enqueue(val); !ok {
+		vhook("add.enq", j, false)
 		j.Close()
 		return false
 	}
+	vhook("add.enq", j, true)
 
 	q.w.Metrics().incSubmitted()
 	q.w.notifyToPullNextJobs()
